@@ -240,6 +240,9 @@ def trace(ck, rng, S, nev, exhaustive_tiny=False):
             ev.append("(EUpdate (K:=Zring) (NL %s) (NL %s) %s)" % (mcsys.zl(a), mcsys.zl(b), obs_term(MC)))
         except ValueError:
             ev.append("(EUpdate (K:=Zring) (NL %s) (NL %s) None)" % (mcsys.zl(a), mcsys.zl(b)))
+        except Exception as e:
+            raise Violation("update raised %s: %s" % (type(e).__name__, e), "c33-exception",
+                            dict(args=[list(map(int, a)), list(map(int, b))], events=ev[-40:]))
 
     def trial(a, b):
         try:
@@ -247,6 +250,9 @@ def trace(ck, rng, S, nev, exhaustive_tiny=False):
             ev.append("(ETrial (K:=Zring) (NL %s) (NL %s) (Some %s))" % (mcsys.zl(a), mcsys.zl(b), mcsys.zz(mcsys.intval(dE, "deltaE"))))
         except ValueError:
             ev.append("(ETrial (K:=Zring) (NL %s) (NL %s) None)" % (mcsys.zl(a), mcsys.zl(b)))
+        except Exception as e:
+            raise Violation("deltaE_trial raised %s: %s" % (type(e).__name__, e), "c33-exception",
+                            dict(args=[list(map(int, a)), list(map(int, b))], events=ev[-40:]))
 
     if exhaustive_tiny:
         free = [i for i in range(S.Nsites) if i != S.vacancy]
@@ -387,7 +393,10 @@ def run(ck):
         vac, jn, ts = combos[(k + ck.seed) % len(combos)]
         S = mcsys.build(rng, name, setup, sup, vacancy=vac, jumps=jn, ts=ts)
         if S is None or len(S.MC.interactvalue) > 200: continue
-        items.append((S, trace(ck, rng, S, 0, exhaustive_tiny=True), "exhaustive"))
+        try:
+            items.append((S, trace(ck, rng, S, 0, exhaustive_tiny=True), "exhaustive"))
+        except Violation as v:
+            report(ck, S, v, [], [])
     ntr = ck.n(10, 40)
     tries = 0
     while sum(1 for it in items if it[2] == "random") < ntr and tries < 10 * ntr:
@@ -399,7 +408,10 @@ def run(ck):
         nint = len(S.MC.interactvalue)
         if nint > 700: continue
         nev = max(20, min(ck.n(150, 400), 40000 // (nint + 20)))
-        items.append((S, trace(ck, rng, S, nev), "random"))
+        try:
+            items.append((S, trace(ck, rng, S, nev), "random"))
+        except Violation as v:
+            report(ck, S, v, [], [])
     try:
         codes = run_traces(ck, "trace", [(S, ev) for S, ev, _ in items])
     except CoqFailure as e:
